@@ -44,6 +44,10 @@ pub mod common;
 #[cfg(feature = "sched")]
 pub mod c09;
 #[cfg(feature = "sched")]
+pub mod c03;
+#[cfg(feature = "sched")]
+pub mod c10;
+#[cfg(feature = "sched")]
 pub mod lin;
 #[cfg(feature = "sched")]
 pub mod c02;
@@ -68,6 +72,10 @@ pub fn property(id: &str, ctx: &Ctx) -> Option<PropertyDef> {
         "C12" => Some(c12::def(ctx)),
         #[cfg(feature = "sched")]
         "C09" => Some(c09::def(ctx)),
+        #[cfg(feature = "sched")]
+        "C03" => Some(c03::def(ctx)),
+        #[cfg(feature = "sched")]
+        "C10" => Some(c10::def(ctx)),
         #[cfg(feature = "sched")]
         "C02" => Some(c02::def(ctx)),
         #[cfg(feature = "sched")]
